@@ -107,6 +107,16 @@ struct Cfg
 	{
 		if (n->GetParent() != parent) return false;
 		if (n->GetCount() > n->GetCapacity() || n->GetCapacity() > maxCap) return false;
+		if constexpr (!N::isContinuous)
+		{	// indexed layout: the table must stay a permutation of the slot numbers 0..maxCapacity-1
+			bool seen[256] = { false };
+			for (size_t i = 0; i < N::maxCapacity; ++i)
+			{
+				size_t v = n->mCounter.indexes[i];
+				if (v >= N::maxCapacity || seen[v]) return false;
+				seen[v] = true;
+			}
+		}
 		if (n->IsLeaf()) { if (leafDepth == size_t(-1)) leafDepth = depth; return leafDepth == depth; }
 		for (size_t i = 0; i <= n->GetCount(); ++i)
 			if (!checkNode(n->GetChild(i), n, depth + 1, leafDepth)) return false;
@@ -234,6 +244,20 @@ struct Cfg
 				size_t before = tw.size();
 				tw.erase(std::remove_if(tw.begin(), tw.end(), [m, r] (const std::pair<long, long>& e) { return e.first % m == r; }), tw.end());
 				if (n != before - tw.size()) bad("REMOVEIF");
+				break; }
+			case 'n': {   // Insert(begin, end) over the comma separated keys (the sorted-input fast path when they come ordered)
+				std::vector<long> ks; { const char* p = arg; while (*p) { char* e; long v = std::strtol(p, &e, 10); if (e == p) break; ks.push_back(v); p = (*e == ',') ? e + 1 : e; } }
+				size_t n;
+				if constexpr (isMap) { std::vector<std::pair<Key, long>> v; for (long k : ks) { long sr = serial++; v.emplace_back(KK::make(k, sr), sr); } n = c.Insert(v.begin(), v.end()); }
+				else { std::vector<Key> v; for (long k : ks) v.push_back(KK::make(k, serial++)); n = c.Insert(v.begin(), v.end()); }
+				tok("N%u", unsigned(n));
+				size_t exp = 0; long sr0 = serial - long(ks.size());
+				for (size_t q = 0; q < ks.size(); ++q)
+				{
+					size_t lb = twLb(tw, ks[q]), ub = twUb(tw, ks[q]);
+					if (multi || lb == ub) { tw.insert(tw.begin() + ub, { ks[q], sr0 + long(q) }); ++exp; }
+				}
+				if (n != exp) bad("INSERTRANGE");
 				break; }
 			case 'c': c.Clear(); tw.clear(); out += 'C'; break;
 			case 'x': {   // Extract at index a1, optionally re-key (a2 >= 0), Insert the extracted item back
